@@ -444,6 +444,30 @@ def run(ctx):
     ctx.check(ok, "R02.5", opt.short, "sequential-forwards-arguments", message="_optimize does not forward n_trials/catch/callbacks unchanged", how="positional arguments")
 
 
+    # the callbacks are iterated once per trial (and by every worker thread): the Iterable the caller gave has to be materialised once,
+    # before it reaches the per-trial loop - an iterator / generator is exhausted by the first trial
+    go = CFG(opt.node, name=opt.qualname)
+    mats = [n for n in go.stmt_nodes() if n.kind == "stmt" and isinstance(n.ast, ast.Assign) and any(isinstance(t, ast.Name) and t.id == "callbacks" for t in n.ast.targets)
+            and isinstance(n.ast.value, ast.Call) and dotted(n.ast.value.func) in ("list", "tuple") and n.ast.value.args and norm(n.ast.value.args[0]) == "callbacks"]
+
+    def atom_nocb2(e):
+        a = cmp_atom(e)
+        if a and a[0] == "callbacks" and a[2] == "None":
+            return True if a[1] in (ast.Is, ast.Eq) else (False if a[1] in (ast.IsNot, ast.NotEq) else None)
+        return None
+    none_e = [(t, k, m) for t in go.stmt_nodes() if t.kind == "test" for k, m in t.succ if edges_where(t.expr, atom_nocb2).get(k) is True]
+    users = [n for n in go.stmt_nodes() if any(isinstance(c, ast.Call) and (dotted(c.func) in ("_optimize_sequential",) or (isinstance(c.func, ast.Attribute) and c.func.attr == "submit"))
+                                               and any(isinstance(a, ast.Name) and a.id == "callbacks" for a in c.args) for c in n.calls())]
+    ctx.require(users, "R02.5: _optimize no longer hands callbacks to the per-trial loop")
+    local_mat = any(isinstance(n.expr[0], ast.Call) and dotted(n.expr[0].func) in ("list", "tuple") for n in gs.stmt_nodes() if n.kind == "iter" and "callbacks" in norm(n.expr[0]))
+    r_ = go.reachable([go.entry], avoid_nodes=mats, avoid_edges=none_e, edge_ok=lambda a, k, b: k not in ("e", "reraise"))
+    hitu = [u for u in users if u in r_]
+    ctx.check(local_mat or not hitu, "R02.5", opt.short, "callbacks-iterable-materialised-once",
+              message="_optimize hands the caller's `callbacks` Iterable to the per-trial loop as it is: the loop iterates it after every trial, so a one-shot iterable "
+                      "(iter([...]), a generator) runs the callbacks for the first trial only - optimize(f, n_trials=4, callbacks=iter([cb])) calls cb once",
+              how="`callbacks = list(callbacks)` (not None) dominates every hand-over to _optimize_sequential / executor.submit",
+              where=where(opt, hitu[0].ast) if hitu else None)
+
     # public wrappers forward their arguments unchanged
     tf = p.func("optuna.study.study.Study.tell")
     tc = [c for c in own_nodes(tf.node) if isinstance(c, ast.Call) and dotted(c.func) == "_tell_with_warning"]
